@@ -33,6 +33,31 @@ theorem no_go_statements : (goStatements == []) = true := by decide
 /-- [C06] a compiled expression holds the AST and nothing else -/
 theorem expression_fields : (expressionFields == [("node", "parser.Node")]) = true := by decide
 
+/-- library functions that read their arguments and write nothing reachable from them (trusted; see DESIGN §6.5) -/
+def readOnlyCallee (k : String) : Bool :=
+  k == "extcall:reflect.TypeOf" || k == "extcall:slices.Clone" || k == "extcall:maps.Clone" || k == "extcall:strings.Clone"
+  || k == "extcall:encoding/json.Marshal"
+  || k == "extcall:invoke:reflect.Type.String" || k == "extcall:invoke:reflect.Type.Name"
+  || k == "extcall:invoke:reflect.Type.Kind" || k == "extcall:invoke:reflect.Type.Elem"
+  || k == "extcall:invoke:io.Writer.Write" || k == "extcall:fmt.Fprintf"
 
+/-- memory a call outside the four packages may write: what the call itself allocated, or a decoder made in this function -/
+def privateArg (p : String × String) : Bool :=
+  privatePart p || (p.1 == "call" && p.2 == "encoding/json.NewDecoder")
+
+/-- [C06, C07] default deny for code outside the four packages: every argument that is not an immutable value and is
+    handed to a foreign function, to a method of a foreign interface or to a function value is either memory the call
+    itself allocated, or the callee is one of a short list of read-only library functions -/
+theorem extcalls_safe : extCalls.all (fun e => readOnlyCallee e.kind || e.root.all privateArg) = true := by decide
+
+/-- [C13] the only library functions `sort_by` hands its (cloned) array to are `slices.Clone` and `sort.Stable`: the
+    order of elements with equal keys is the stable one at every length -/
+theorem sort_by_is_stable :
+    ((extCalls.filter (fun e => e.fn == "(*evaluator.evaluator).sortArrayBy")).all
+        (fun e => e.kind == "extcall:reflect.TypeOf" || e.kind == "extcall:slices.Clone" || e.kind == "extcall:sort.Stable")
+     && extCalls.any (fun e => e.fn == "(*evaluator.evaluator).sortArrayBy" && e.kind == "extcall:sort.Stable")
+     && (effects.filter (fun e => e.fn == "(*evaluator.evaluator).sortArrayBy")).all
+        (fun e => e.kind == "store" || e.kind == "append" || e.kind == "inplace:sort.Stable"
+          || e.kind == "fieldInit:*evaluator.sortByNumber" || e.kind == "fieldInit:*evaluator.sortByString")) = true := by decide
 
 end Jmes.Tie
